@@ -111,6 +111,9 @@ pub fn check_text(cx: &Ctx, text: &str, env: Env, expect: Option<&str>, class: &
     }
     if f1 != text {
         cx.changed.fetch_add(1, Ordering::Relaxed);
+        if cx.samples.wants() && text.len() > 60 {
+            cx.samples.push(|| json!({"family": class, "input": text, "formatted": f1}));
+        }
     }
     let r = mcx::catch(|| {
         let p2 = front::parse(front::MAIN, &f1, env);
